@@ -23,6 +23,7 @@ GUARDS = {
     "staleCache": ("route", {"C12_GrabIsLatest", "C12_FollowLeader"}),
     "filterAll": ("route", {"C12_CacheFilter"}),
     "keepGroupOnReaddress": ("addr", {"C12_Address"}),
+    "stopOnRefreshTimeout": ("live", {"temporal", "C12_RefreshWithinTTL"}),
     "releaseOnFail": ("fault", {"C06t_NoReuseAfterFailure", "C06t_ReleaseOnlyAfterComplete"}),
     "releaseOnCancel": ("fault", {"C06t_ReleaseOnlyAfterComplete", "C06t_OwnResponse"}),
 }
@@ -194,6 +195,22 @@ def c12_scripts(seed, tier):
         out.append(follow(i, moves, probes, False, lay, brokers))
         if tier == "thorough" or i in (0, 2, 3, 8):
             out.append(follow(i, moves, probes, True, lay, brokers))
+
+    # 3b. one periodic metadata refresh is never answered (it times out after one TTL): the discover loop must go on,
+    # and a leader move afterwards must still be followed
+    for (hi, nth, slack) in ((0, 2, False), (1, 3, True)) + (((2, 2, True), (3, 4, False)) if tier == "thorough" else ()):
+        ops = Ops()
+        ttl = 100
+        sc = cluster(ttl=ttl, **layouts[0])
+        sc["wfaults"] = [{"api": "Metadata", "nth": nth, "hold": True, "id": 1}]
+        st = steps_of([mkop(ops, k, rng, **kw) for k, kw in lp])
+        st.append({"sleepMs": nth * ttl + 2 * ttl + 200})
+        st.append({"move": {"kind": "leader", "t": "t1", "p": 0, "to": 3}})
+        st += steps_of([mkop(ops, k, rng, **kw) for k, kw in lp])
+        st += [{"slack": True}] if slack else [{"waitRefresh": True}]
+        st += steps_of([mkop(ops, k, rng, **kw) for k, kw in lp])
+        sc.update({"id": "follow-held-%d%s" % (nth, "-rt" if slack else ""), "kind": "c12", "steps": st})
+        out.append(sc)
 
     # 4. metadata from the cache against what the brokers answered, across topic creation and deletion
     ops = Ops()
@@ -511,7 +528,7 @@ ALLK = "leader add addr remove topic coord txn ctrlr"
 MC_QUICK = {
     "addr": ("MC_Reqs2", "MC_MenuQ2", 3, 1, 0, 0, 1, 0, 0, "MC_VTabA", "addr"),
     "one": ("MC_Reqs1", "MC_Menu1", 3, 1, 0, 0, 1, 0, 0, "MC_VTabA", ALLK),
-    "route": ("MC_Reqs2", "MC_MenuQ1", 3, 1, 0, 0, 1, 0, 0, "MC_VTabA", "leader"),
+    "route": ("MC_Reqs2", "MC_MenuQ1b", 3, 1, 0, 0, 1, 0, 0, "MC_VTabA", "leader"),
     "fault": ("MC_Reqs2", "MC_MenuQ2", 4, 0, 1, 1, 0, 1, 0, "MC_VTabB", ALLK),
     "create": ("MC_Reqs2", "MC_MenuQ3", 4, 0, 0, 0, 1, 0, 0, "MC_VTabA", ALLK),
     "closeidle": ("MC_Reqs2", "MC_MenuQ3", 4, 0, 0, 0, 0, 0, 1, "MC_VTabA", ALLK),
@@ -538,10 +555,16 @@ def model_check(ctx, guard_names):
         cfg = "MCgen_%s.cfg" % name
         write_mc_cfg(d, cfg, *args)
         jobs.append(("mc", name, cfg))
+    live_args = ("MC_Reqs0", "MC_Menu0", 2, 2, 0, 1, 1, 1, 0, "MC_VTabA", ALLK)
+    write_mc_cfg(d, "LIVE_refresh.cfg", *live_args, live=True)
+    jobs.append(("live", "refresh", "LIVE_refresh.cfg"))
     for bug in guard_names:
         base, expect = GUARDS[bug]
         cfg = "MCguard_%s.cfg" % bug
-        write_mc_cfg(d, cfg, *MC_QUICK[base], bug=bug)
+        if base == "live":
+            write_mc_cfg(d, cfg, *live_args, bug=bug, live=True)
+        else:
+            write_mc_cfg(d, cfg, *MC_QUICK[base], bug=bug)
         jobs.append(("guard", bug, cfg))
 
     def one(job):
@@ -552,13 +575,20 @@ def model_check(ctx, guard_names):
         res = list(ex.map(one, jobs))
     cov = {"states": 0, "transitions": 0, "mc_configs": {}, "vacuity_guards": {}}
     for (kind, name, cfg), r in res:
-        if kind == "mc":
+        if kind == "live":
+            if r["violated"] or r["error"] or r["timeout"]:
+                raise Inconclusive("liveness check C12_RefreshWithinTTL of Transport.tla did not pass: " + r["out"][-2000:])
+            cov.update({"live_states": r["distinct"], "live_wall_s": round(r["wall"], 1)})
+        elif kind == "mc":
             if r["violated"] or r["error"] or r["timeout"]:
                 raise Inconclusive("model checking of Transport.tla (%s) did not pass: %s" % (name, r["out"][-2000:]))
             cov["states"] += r["distinct"]
             cov["transitions"] += r["generated"]
             cov["mc_configs"][name] = {"distinct": r["distinct"], "generated": r["generated"], "depth": r["depth"], "wall_s": round(r["wall"], 1)}
         else:
+            tm = re.search(r"Temporal property (\S+) was violated", r["out"])
+            if tm and not r["violated"]:
+                r["violated"] = tm.group(1)
             if r["violated"] not in GUARDS[name][1]:
                 raise Inconclusive("vacuity guard failed: the model with defect %s was not rejected (%s)" % (name, r["violated"] or r["out"][-600:]))
             cov["vacuity_guards"][name] = r["violated"]
@@ -602,9 +632,7 @@ def run(ctx):
         ctx.notes.append("model checking skipped (VERIF_TRANSPORT_NOMC)")
         cov.update({"states": 0, "transitions": 0})
     else:
-        cov.update(model_check(ctx, ["firstBroker", "clientMax", "staleCache", "filterAll", "groupToController", "keepGroupOnReaddress"] if ctx.tier == "quick" else list(GUARDS)))
-    if ctx.tier == "thorough" and not os.environ.get("VERIF_TRANSPORT_NOMC"):
-        cov.update(liveness(ctx))
+        cov.update(model_check(ctx, ["firstBroker", "clientMax", "staleCache", "filterAll", "groupToController", "keepGroupOnReaddress", "stopOnRefreshTimeout"] if ctx.tier == "quick" else list(GUARDS)))
     scripts = c12_scripts(ctx.seed, ctx.tier)
     traces = run_scripts(ctx, scripts, "c12")
     report(ctx, "C12", cov, scripts, traces, PROP_INVS["C12"])
